@@ -14,6 +14,8 @@ Every other simulation carries constraints (FixAtoms on a framework or the first
 FixCom): the calculator's own copy of the atoms carries copies of them too.
 Further dimensions: an on-demand calculator (forces only when asked for) with force queries between trials, and
 constraints that contribute to the energy (Hookean, ExternalForce).
+Every sixth grand-canonical simulation exchanges distinguishable single atoms through e+e and e*2 composites that are
+mostly rejected (several particles put back in one trial, rows recorded in descending order as often as ascending).
 """
 from __future__ import annotations
 
@@ -37,7 +39,7 @@ ASSUMPTIONS = [
     "the count clause is decided on calculators that cache through ASE's Calculator base class (all harness styles, EMT, LennardJones); Hamiltonian workloads are excluded from the count clause as the statement says",
     "pass A never queries the energy itself; it reads calc.results / calc.check_state and lets the package's Logger do the querying",
 ]
-REQUIRED = {"simulations_with_energy_contributing_constraint": 10, "force_queries": 300, "trials": 4000, "count_checks": 300, "cached_energy_checks": 2000, "reference_energy_checks": 3000, "intrusive_queries": 1000, "keyed_results_handed_out": 500, "peratom_trials": 300, "ase_calculator_trials": 300, "rejected": 800, "failed": 200}
+REQUIRED = {"simulations_with_composite_exchange_of_distinguishable_particles": 8, "simulations_with_energy_contributing_constraint": 10, "force_queries": 300, "trials": 4000, "count_checks": 300, "cached_energy_checks": 2000, "reference_energy_checks": 3000, "intrusive_queries": 1000, "keyed_results_handed_out": 500, "peratom_trials": 300, "ase_calculator_trials": 300, "rejected": 800, "failed": 200}
 SHARD_TIMEOUT = {"quick": 900, "thorough": 3000}
 FAMILIES = ["canonical", "isobaric", "isotension", "grand", "grand", "hamiltonian", "canonical", "isobaric"]
 CALCS = [("soft", "plain"), ("soft", "keyed"), ("soft", "peratom"), ("emt", "ase"), ("lj", "ase"), ("soft", "keyed"), ("soft", "peratom"), ("emt", "ase")]
@@ -309,6 +311,23 @@ def run(spec):
                 {"name": "swap", "move": {"t": "+", "parts": [{"t": "D", "op": {"t": "Ball", "step": 0.2}}, {"t": "E", "bias": 0.0}, {"t": "E", "bias": 1.0}]}, "criteria": "grand"},
                 {"name": "d", "move": {"t": "D", "op": {"t": "Ball", "step": 0.3}}},
             ]
+        if spec["family"] == "grand" and i % 6 == 5 and kind == "soft":
+            # several distinguishable single-atom particles deleted in one trial by a composite exchange move (built with
+            # + from two exchange moves, and with * from one) and mostly put back: the rows are recorded in the order
+            # the members picked them, which is as often descending as ascending
+            s["atoms"]["kind"] = "mixed"
+            s["atoms"]["n"] = int(max(4, s["atoms"].get("n", 4)))
+            s["atoms"].pop("spectators_last", None)
+            s["atoms"]["constraints"] = [c for c in s["atoms"].get("constraints", []) if c == "FixCom"]
+            s["species"] = 1
+            s["cycles"] = 2
+            em_ = {"t": "E", "op": None, "bias": 0.3}
+            s["table"] = [
+                {"name": "xx", "move": {"t": "+", "parts": [em_, dict(em_)]}, "criteria": "random:0.2"},
+                {"name": "x2", "move": {"t": "*", "part": dict(em_), "n": 2}, "criteria": "random:0.2"},
+                {"name": "d", "move": {"t": "D", "op": {"t": "Ball", "step": 0.3}}},
+            ]
+            rec.count("simulations_with_composite_exchange_of_distinguishable_particles")
         if spec["family"] == "grand" and i % 3 == 0:
             # exchange and displacement trials, both judged by the shipped criteria, with a chemical potential
             # that makes insertions and deletions about equally likely (so accepted and reverted exchanges alternate)
